@@ -12,6 +12,7 @@ import ScpiVerif.Model.Parser
 import ScpiVerif.Spec.Unit
 import ScpiVerif.Lemmas.Regex
 import ScpiVerif.Lemmas.Lexer
+import ScpiVerif.Lemmas.CharClass
 
 namespace ScpiVerif.Props.C13
 open ScpiVerif ScpiVerif.Lexer ScpiVerif.Parser ScpiVerif.Spec
@@ -90,6 +91,33 @@ theorem unit_spec (s : Bytes) :
                            u.nParams = e.nParams) ∧
     u.consumed ≤ s.length ∧ (s ≠ [] → 1 ≤ u.consumed) :=
   Lemmas.Lexer.unit_spec s
+
+/-! ### the character classes are those of the current source
+
+`Gen.cc_*` are regenerated on every run by the translator from the COMPILED predicates of lexer.c (file-static functions,
+called with a plain `char` argument for each of the 256 byte values); `inClass t b` reads bit `b` of such a table. -/
+
+
+/-- every character-class predicate of the lexer model equals, for every byte value, the predicate of the same name in
+the current lexer.c (exhaustive, kernel-evaluated on all 256 values of each) -/
+theorem character_classes (b : UInt8) :
+    Lemmas.CharClass.inClass Gen.cc_isws b = isWs b ∧ Lemmas.CharClass.inClass Gen.cc_isbdigit b = isBDigit b ∧ Lemmas.CharClass.inClass Gen.cc_isqdigit b = isQDigit b ∧
+    Lemmas.CharClass.inClass Gen.cc_isplusmn b = isPlusMn b ∧ Lemmas.CharClass.inClass Gen.cc_isE b = isE b ∧
+    Lemmas.CharClass.inClass Gen.cc_isH b = (b == 104 || b == 72) ∧ Lemmas.CharClass.inClass Gen.cc_isB b = (b == 98 || b == 66) ∧
+    Lemmas.CharClass.inClass Gen.cc_isQ b = (b == 113 || b == 81) ∧ Lemmas.CharClass.inClass Gen.cc_isascii7bit b = isAscii7 b ∧
+    Lemmas.CharClass.inClass Gen.cc_isNonzeroDigit b = (isDigit b && b != 48) ∧
+    Lemmas.CharClass.inClass Gen.cc_isProgramExpression b = isProgramExpression b :=
+  ⟨Lemmas.CharClass.isws b, Lemmas.CharClass.isbdigit b, Lemmas.CharClass.isqdigit b, Lemmas.CharClass.isplusmn b,
+   Lemmas.CharClass.isE b, Lemmas.CharClass.isH b, Lemmas.CharClass.isB b, Lemmas.CharClass.isQ b,
+   Lemmas.CharClass.isascii7bit b, Lemmas.CharClass.isNonzeroDigit b, Lemmas.CharClass.isProgramExpression b⟩
+
+/-- and the <ctype.h> classes the model assumes are the ones of the C library the harness links ("C" locale) -/
+theorem ctype_classes (b : UInt8) :
+    Lemmas.CharClass.inClass Gen.cc_isdigit b = isDigit b ∧ Lemmas.CharClass.inClass Gen.cc_isalpha b = isAlpha b ∧ Lemmas.CharClass.inClass Gen.cc_isalnum b = isAlnum b ∧
+    Lemmas.CharClass.inClass Gen.cc_isxdigit b = isXDigit b ∧ Lemmas.CharClass.inClass Gen.cc_isupper b = isUpper b ∧ Lemmas.CharClass.inClass Gen.cc_islower b = isLower b ∧
+    Lemmas.CharClass.inClass Gen.cc_isspace b = Prim.isSpace b :=
+  ⟨Lemmas.CharClass.isdigit b, Lemmas.CharClass.isalpha b, Lemmas.CharClass.isalnum b, Lemmas.CharClass.isxdigit b,
+   Lemmas.CharClass.isupper b, Lemmas.CharClass.islower b, Lemmas.CharClass.isspace b⟩
 
 -- non-vacuity (byte lists written out: `decide` cannot reduce `String.toUTF8`)
 -- "x-1.5 e+3V"
